@@ -96,9 +96,29 @@ class Deleter:
     self.rec.log.append(('del', _norm(k)))
 
 
+class XErr(Exception):
+  """The exception the generated programs raise."""
+
+
+class YErr(Exception):
+  """The exception the generated programs name as the cause (`raise X from Y`) or raise first."""
+
+
+class ErrMaker:
+  """E[i] / F[i]: a fresh exception instance of a fixed class, logged like every other leaf."""
+
+  def __init__(self, rec: Recorder, cls, tag):
+    self.rec, self.cls, self.tag = rec, cls, tag
+
+  def __getitem__(self, i):
+    self.rec.log.append((self.tag, _norm(i)))
+    return self.cls(f'{self.tag}{_norm(i)!r}')
+
+
 def make_env() -> Tuple[Dict[str, Any], Recorder]:
   rec = Recorder()
-  return {'S': rec, 'W': Once(rec), 'D': Deleter(rec), 'Q': list(range(10)), 'A': 100}, rec
+  return {'S': rec, 'W': Once(rec), 'D': Deleter(rec), 'Q': list(range(10)), 'A': 100,
+          'E': ErrMaker(rec, XErr, 'E'), 'F': ErrMaker(rec, YErr, 'F')}, rec
 
 
 def _norm(v, depth=0):
@@ -125,7 +145,9 @@ def _norm(v, depth=0):
     return ['class', v.__name__]
   if isinstance(v, types.ModuleType):
     return ['module', v.__name__]
-  if isinstance(v, (Recorder, Once, Deleter)):
+  if isinstance(v, BaseException):
+    return ['exception', type(v).__name__, str(v)]
+  if isinstance(v, (Recorder, Once, Deleter, ErrMaker)):
     return ['harness', type(v).__name__]
   return ['object', type(v).__name__]
 
@@ -201,7 +223,8 @@ def render_node(c: Ctx, kind: str, child: Optional[Tuple[str, Any]]):
   if k == 'TryStar':
     return 'S', ['try:'] + _ind(b('body')) + ['except* Exception:'] + _ind(b('handler'))
   if k == 'Raise':
-    return 'S', [f'raise {e("exc")}']
+    ca = e('cause', True)
+    return 'S', [f'raise E[{e("exc")}]' + (f' from F[{ca}]' if ca else '')]
   if k == 'Assert':
     return 'S', [f'assert {e("test")}, {e("msg")}']
   if k == 'ClassDef':
@@ -313,6 +336,22 @@ def render(chain: List[str]) -> str:
   return '\n'.join(['S[0]'] + lines)
 
 
+# Programs about error reporting (names and kinds come from Perm.tla: ErrProgs)
+ERR_PROGRAMS = {
+    'raise_from': 'S[0]\ntry:\n  raise F[S[1]]\nexcept Exception as err:\n  raise E[S[2]] from err\nfinally:\n  S[3]',
+    'raise_from_fresh': 'S[0]\nraise E[S[1]] from F[S[2]]',
+    'raise_from_none': 'S[0]\ntry:\n  raise F[S[1]]\nexcept Exception:\n  raise E[S[2]] from None\nfinally:\n  S[3]',
+    'implicit_chain': 'S[0]\ntry:\n  raise F[S[1]]\nexcept Exception:\n  raise E[S[2]]\nfinally:\n  S[3]',
+    'reraise': 'S[0]\ntry:\n  raise F[S[1]]\nexcept Exception:\n  S[2]\n  raise\nfinally:\n  S[3]',
+    'nested_reraise': ('S[0]\ntry:\n  try:\n    raise F[S[1]]\n  except Exception as err:\n    raise E[S[2]] from err\n'
+                       '  finally:\n    S[3]\nexcept Exception:\n  S[4]\n  raise\nfinally:\n  S[5]'),
+    'raise_in_finally': 'S[0]\ntry:\n  raise F[S[1]]\nexcept Exception:\n  raise\nfinally:\n  raise E[S[2]]',
+    'raise_from_in_func': ('S[0]\ndef f1(k):\n  try:\n    raise F[k]\n  except Exception as err:\n    raise E[k] from err\n'
+                           '  finally:\n    S[2]\n  return k\nS[3]\nf1(S[4])'),
+    'assert_message': 'S[0]\nassert F[S[1]] is None, E[S[2]]',
+}
+
+
 # ---------------------------------------------------------------------------------------------
 # Table checks (machinery: my tables against the interpreter and against the spec)
 
@@ -369,7 +408,7 @@ def plain_run(src: str) -> Dict[str, Any]:
         if isinstance(last, ast.Assign) and isinstance(last.targets[0], ast.Name):
           res['result'] = _norm(env[last.targets[0].id])
   except Exception as ex:  # pylint: disable=broad-except
-    res['error'] = (type(ex).__name__, _code_lines(sys.exc_info()[2], '<plain>'))
+    res['error'] = (type(ex).__name__, _code_lines(sys.exc_info()[2], '<plain>'), _ADDR.sub(' at 0x?', str(ex)))
   res['stdout'] = out.getvalue()
   res['log'] = list(rec.log)
   res['vars'] = {k: _norm(v) for k, v in env.items()
@@ -412,14 +451,14 @@ def pg_run(src: str, mask: int, mode: str, api: str = 'evaluate') -> Dict[str, A
     res['result'] = _norm(out.pop('__result__', None))
     res['vars'] = {k: _norm(v) for k, v in out.items()}
   except pg.coding.CodeError as ex:
-    cause = ex.__cause__ if ex.__cause__ is not None else ex.cause
+    cause = ex.cause          # the documented attribute; it must also be the __cause__
     if isinstance(cause, SyntaxError):
       res['outcome'] = 'rejected'
       res['message'] = str(cause.msg)
       res['lineno'] = ex.lineno
     else:
       res['outcome'] = 'error'
-      res['error'] = (type(cause).__name__, ex.lineno)
+      res['error'] = (type(cause).__name__, ex.lineno, _ADDR.sub(' at 0x?', str(cause)))
       res['cause_is_dunder_cause'] = ex.__cause__ is ex.cause
   except Exception as ex:  # pylint: disable=broad-except
     res['outcome'] = 'crash'
@@ -462,6 +501,8 @@ def compare(ref: Dict[str, Any], got: Dict[str, Any], code: int) -> Optional[Tup
       return ('error_report', 'no error reported', ref['error'], got['outcome'])
     if got['error'][0] != ref['error'][0]:
       return ('error_report', 'cause class', ref['error'][0], got['error'][0])
+    if got['error'][2] != ref['error'][2]:
+      return ('error_report', 'cause message', ref['error'][2], got['error'][2])
     if got['error'][1] not in ref['error'][1]:
       return ('error_report', 'line', ref['error'][1], got['error'][1])
     if not got.get('cause_is_dunder_cause'):
@@ -499,3 +540,43 @@ def other_modes_agree(src: str, mask: int) -> Optional[Tuple[str, Any, Any]]:
     if _norm(outs[2][1]) != _norm(full.get('__result__')):
       return ('default result', _norm(full.get('__result__')), _norm(outs[2][1]))
   return None
+
+
+def run_history(src: str, mask: int, hist: List[int]) -> Dict[str, Any]:
+  """Enters / leaves permission scopes as the history says (1 = the mask under test, 2 = ALL, 3 = nothing,
+  0 = leave the innermost), evaluates src with no permission argument, then leaves what is still open."""
+  env, rec = make_env()
+  res: Dict[str, Any] = {'outcome': None}
+  open_cms = []
+  perms = {1: P(mask), 2: P.ALL, 3: P(0)}
+  try:
+    for op in hist:
+      if op == 0:
+        open_cms.pop().__exit__(None, None, None)
+      else:
+        cm = pg.coding.permission(perms[op])
+        cm.__enter__()
+        open_cms.append(cm)
+    eff = pg.coding.get_permission()
+    res['effective'] = None if eff is None else int(eff.value)
+    try:
+      out = dict(pg.coding.evaluate(src, global_vars=env, outputs_intermediate=True))
+      res['outcome'] = 'ran'
+      res['stdout'] = out.pop('__stdout__', None)
+      res['result'] = _norm(out.pop('__result__', None))
+      res['vars'] = {k: _norm(v) for k, v in out.items()}
+    except pg.coding.CodeError as ex:
+      if isinstance(ex.cause, SyntaxError):
+        res['outcome'] = 'rejected'
+        res['message'] = str(ex.cause.msg)
+      else:
+        res['outcome'] = 'error'
+        res['error'] = (type(ex.cause).__name__, ex.lineno, _ADDR.sub(' at 0x?', str(ex.cause)))
+        res['cause_is_dunder_cause'] = ex.__cause__ is ex.cause
+  finally:
+    while open_cms:
+      open_cms.pop().__exit__(None, None, None)
+  res['log'] = list(rec.log)
+  if pg.coding.get_permission() is not None:
+    res['leaked_scope'] = int(pg.coding.get_permission().value)
+  return res
